@@ -192,6 +192,70 @@ def gen_set(rng, n, uidmode):
     return items
 
 
+def gen_uid_set_line(rng, present, gaps):
+    """a UID set over the whole number line: bounds on present UIDs, inside gaps, below the
+    smallest and above the largest UID, reversed ranges, comma lists mixing present and absent"""
+    top = max(present + gaps + [1])
+    line = sorted(set(gaps)) * 3 + present + [top + 1, top + 3, 1]
+    items = []
+    for _ in range(rng.choice([1, 1, 2, 2, 3])):
+        r = rng.random()
+        if r < 0.25:
+            a = rng.choice(line)
+            items.append((a, a))
+        elif r < 0.9:
+            a, b = rng.choice(line), rng.choice(line)
+            if rng.random() < 0.6 and gaps:
+                b = rng.choice(gaps)                 # upper (or, reversed, lower) bound inside a gap
+            items.append((a, b))
+        elif r < 0.95:
+            items.append((rng.choice(line), None))
+        else:
+            items.append((None, None))
+    return items
+
+
+def gen_gap_history(rng):
+    """INBOX with UID gaps (\\Deleted + EXPUNGE, a Junk auto-move), then UID STOREs / UID COPYs whose
+    sets have bounds inside the gaps; every step is followed by FETCH 1:* of ALL messages"""
+    pool = SYS[:3] + ["\\Draft", "kw", "$Forwarded", "Work"]
+    n = rng.randint(6, 9)
+    h = [{"k": "append", "mb": 1, "fl": gen_flags(rng, pool), "paren": True} for _ in range(n)]
+    h.append({"k": "select", "mb": 1, "ro": False})
+    present = list(range(1, n + 1))
+    gaps = sorted(rng.sample(present[1:], rng.randint(2, 3)))
+
+    def st(uidmode, st_set, item, new, silent):
+        return {"k": "store", "uid": uidmode, "ro": False, "silent": silent, "mb": 1, "set": st_set, "item": item,
+                "raw": item + (".SILENT" if silent else ""), "new": new, "paren": True}
+    for g in gaps[:-1]:
+        h.append(st(True, [(g, g)], "+FLAGS", ["\\Deleted"], True))
+    h.append({"k": "expunge", "ro": False, "mb": 1, "how": "EXPUNGE"})
+    if rng.random() < 0.5:
+        h.append(st(True, [(gaps[-1], gaps[-1])], "+FLAGS", ["Junk"], False))        # the auto-move leaves a gap too
+    else:
+        h.append(st(True, [(gaps[-1], gaps[-1])], "+FLAGS", ["\\Deleted"], True))
+        h.append({"k": "expunge", "ro": False, "mb": 1, "how": "CLOSE"})
+        h.append({"k": "select", "mb": 1, "ro": False})
+    present = [u for u in present if u not in gaps]
+    for _ in range(rng.randint(7, 10)):
+        r = rng.random()
+        if r < 0.8:
+            item = rng.choice(ITEMS)
+            h.append(st(True, gen_uid_set_line(rng, present, gaps), item, gen_flags(rng, pool) or ["kw"], rng.random() < 0.4))
+        elif r < 0.9:
+            h.append({"k": "copy", "uid": True, "mb": 1, "set": gen_uid_set_line(rng, present, gaps), "dest": rng.choice([2, 3, 4])})
+        else:
+            h.append({"k": "append", "mb": 1, "fl": gen_flags(rng, pool), "paren": True})
+            n += 1
+            present.append(n)
+    for o in h:
+        if o["k"] != "select":
+            o["probes"] = {"a_refresh": None, "a_key": rng.randrange(len(PROBE_KEYS)), "c": rng.random() < 0.3, "c_refresh": False, "d": False}
+    keys = rng.sample(SEARCH_KEYS, 5) + [("KEYWORD kw", "has", "kw"), ("UNKEYWORD Work", "not", "Work"), ("keyword $Forwarded", "has", "$Forwarded")]
+    return {"stream": "gaps", "h": h, "keys": keys, "mailboxes": [1, 2, 3, 4, 5]}
+
+
 def gen_flags(rng, pool, kmax=3):
     return [rng.choice(pool) for _ in range(rng.choice([0, 1, 1, 2, 2, kmax]))]
 
@@ -601,6 +665,8 @@ def suite_sessions(chk, body_parts, post):
     ncorpus = len(scs)
     for _ in range(nsc):
         scs.append(gen_history(chk.rng, chk.rng.choice(streams), chk.rng.randint(5, 12)))
+    for _ in range(8 if chk.tier == "quick" else 100):
+        scs.append(gen_gap_history(chk.rng))
     results = C.run_many([driver_ops(sc)[0] for sc in scs], workers=12, timeout=300)
     obs = []
     for sc, res in zip(scs, results):
@@ -629,7 +695,7 @@ def suite_sessions(chk, body_parts, post):
         chk.cov["evaluations"] += nsteps + sum(len(sc["mailboxes"]) * (len(sc["keys"]) + 3) for sc, _ in good)
         chk.cov["session_scenarios"] = len(good)
         chk.cov["session_steps"] = nsteps
-        chk.cov["session_streams"] = {s: sum(1 for sc, _ in good if sc["stream"] == s) for s in sorted(set(streams) | {"corpus"})}
+        chk.cov["session_streams"] = {s: sum(1 for sc, _ in good if sc["stream"] == s) for s in sorted(set(streams) | {"corpus", "gaps"})}
         by = {}
         for sc, _ in good:
             for o in sc["h"]:
